@@ -13,7 +13,7 @@ from harness.framework import Suite
 
 PID = "C20"
 TRANSLATE = True
-TRANSLATE_ALGO = ["AlgoTraverse", "AlgoTravFront", "AlgoRaster", "AlgoImgIo"]   # harness/algo_specs/18_raster.py: image_stack.py::_tp3f, ToImageStack._get_samplers / _get_scene (+ leave) / transform; 18b_imgio.py: images/io.py::save_tiff, TiffImageStack / NDArrayImageStack.__init__, __getitem__, get_full
+TRANSLATE_ALGO = ["AlgoTraverse", "AlgoTravFront", "AlgoRaster", "AlgoImgIo"]   # harness/algo_specs/18_raster.py: image_stack.py::_tp3f, ToImageStack._get_samplers / _get_scene (+ leave) / transform; 18b_imgio.py: images/io.py::read_imgs, save_tiff, TiffImageStack / NDArrayImageStack.__init__, __getitem__, get_full
 DRIVER_FILES = ["SwcVerif/Model/AlgoRunRaster.lean", "SwcVerif/Model/PyRaster.lean", "SwcVerif/Model/AlgoRunImgIo.lean", "SwcVerif/Model/PyImgIo.lean"]
 LEAN_MODS = ["SwcVerif.Props.C20", "SwcVerif.Props.C20Gen", "SwcVerif.Props.C20Io"]
 THEOREMS = [
@@ -28,7 +28,7 @@ THEOREMS = [
     # the generated images/io.py logic (Gen/AlgoImgIo.lean, harness/algo_specs/18b_imgio.py) equals closed-form models for every input
     # (Refine/ImgIo.lean); the property's statements for the code as translated (Props/C20Io.lean)
     "RefineImgIo.ndarray_init_eq", "RefineImgIo.save_tiff_eq", "RefineImgIo.tiff_init_eq", "RefineImgIo.ndarray_getitem_eq",
-    "RefineImgIo.ndarray_get_full_eq",
+    "RefineImgIo.ndarray_get_full_eq", "RefineImgIo.read_imgs_eq", "C20.generated_read_dispatch",
     "C20.generated_save_layout", "C20.generated_save_layout_3d", "C20.generated_save_rejects", "C20.generated_load_layout",
     "C20.generated_load_layout_3d", "C20.generated_load_reset_axes", "C20.generated_load_general", "C20.generated_load_any_order",
     "C20.generated_axes_roundtrip", "C20.generated_axes_roundtrip_3d", "C20.generated_roundtrip_values", "C20.generated_getitem",
@@ -940,6 +940,11 @@ class ImgIoGen(Suite):
     def cases(self, rng, tier, widen):
         n = 36 if tier == "thorough" or widen else 14
         out = []
+        stems = ["a", "x.y", ".hid", "dir.d/z", "d/..x", "s.tif", "", "a.", "..", "p/q.r/s"]
+        exts = [".tif", ".tiff", ".nrrd", ".v3dpbd", ".v3draw", ".npy", ".TIF", ".raw", "", ".tif.bak", ".npy/", ".swc"]
+        for i in range(n):
+            out.append({"op": "read", "fname": rng.choice(stems) + rng.choice(exts), "found": rng.random() < 0.85, "root": rng.random() < 0.4,
+                        "rd": rng.choice([None, None, "u8", "f32", "u16"]), "class": "gen/read"})
         for i in range(n):
             op = ["save", "load", "io", "get", "nd"][i % 5]
             kind = rng.choice(["u8", "u16", "f32"])
@@ -969,6 +974,8 @@ class ImgIoGen(Suite):
     def run(self, case):
         import tifffile
         from swcgeom.images import io
+        if case["op"] == "read":
+            return self.run_read(case, io)
         a = self.array(case)
         to = None if case["to"] is None else _DT[case["to"]]
         rd = None if case["rd"] is None else _DT[case["rd"]]
@@ -1019,7 +1026,41 @@ class ImgIoGen(Suite):
         except (AssertionError, ValueError, KeyError) as e:
             return {"exc": type(e).__name__}
 
+    @staticmethod
+    def run_read(case, io):
+        """the real `read_imgs` with the reader classes replaced by recorders (which class, which keyword arguments) and the file system answers
+        (`os.path.exists`, `TeraflyImageStack.is_root`) given by the case"""
+        names = ["TiffImageStack", "NrrdImageStack", "V3dpbdImageStack", "V3drawImageStack", "NDArrayImageStack", "TeraflyImageStack"]
+        saved = {k: getattr(io, k) for k in names}
+        saved_exists, saved_load = os.path.exists, np.load
+
+        def recorder(name):
+            class R:
+                def __init__(self, *a, **kw):
+                    self.rec = (name, kw)
+                is_root = staticmethod(lambda root: case["root"])
+            R.__name__ = name
+            return R
+        try:
+            for k in names:
+                setattr(io, k, recorder(k))
+            os.path.exists = lambda f: case["found"]
+            np.load = lambda f: None
+            try:
+                st = io.read_imgs(case["fname"], **({} if case["rd"] is None else {"dtype": _DT[case["rd"]]}))
+            except ValueError:
+                return {"exc": "ValueError"}
+            name, kw = st.rec
+            return {"cls": name, "dtype": _DTN[np.dtype(kw["dtype"]).name], "extra": sorted(set(kw) - {"dtype"})}
+        finally:
+            os.path.exists, np.load = saved_exists, saved_load
+            for k, v in saved.items():
+                setattr(io, k, v)
+
     def lines(self, case, res):
+        if case["op"] == "read":
+            line = f"gimgread fname={case['fname']} found={int(case['found'])} root={int(case['root'])} dt={case['rd'] or 'none'}"
+            return [(line, "E" if "exc" in res else f"{res['cls']};{res['dtype']}")]
         a = self.array(case)
         vals = [str(Fraction(int(v))) if a.dtype.kind in "ui" else str(Fraction(float(v))) for v in a.flatten().tolist()]
         base = f"shape={gen.ints(case['shape'])} dt={case['kind']} data={','.join(vals)}"
